@@ -595,6 +595,9 @@ def check(ctx):
     no_shared_defaults(ctx, repo, "R8")
     shared_class_state(ctx, repo, "R8")
 
+    ctx.rule("R10", "the teardown runs to its end in EVERY state: async_reset on the manager model (status sensor, button and radio sensors created the way a connection creates them), started in each member of GeckoSpaState with a spa and a facade present, completes without raising, disconnects both and lands in IDLE - the teardown path renders the state for the status sensor, so a state whose text cannot be produced (an index past a table's end for ERROR_RF_FAULT) aborts spa.disconnect half-way: endpoint open, six tasks alive, and every later reset and the context exit raise again")
+    reset_completes_in_every_state(ctx, repo, "R10")
+
     # ---- R6 bounded growth --------------------------------------------------
     check_registry(ctx, repo, "R6", only=("tidy",))
     tidy_started = any(fi.qual == "AsyncTasks.__aenter__" and isinstance(n.args[0], ast.Call) and call_name(n.args[0]) == "_tidy" for fi, n, k in adds if n.args)
@@ -608,6 +611,29 @@ def check(ctx):
 
 
 _MUTATORS = ("append", "add", "update", "extend", "pop", "clear", "setdefault", "remove", "insert", "popitem", "discard")
+
+
+def reset_completes_in_every_state(ctx, repo, rule):
+    from ..absint import PyRaise
+    from ..managermodel import MAN as _MAN, STATE as _STATE, Manager, members
+    fi = repo.method(_MAN, "async_reset")
+    n = 0
+    for name, _v in members(repo, _STATE):
+        m = Manager(repo).warm_up()
+        m.put(name)
+        try:
+            m.reset()
+            after = m.state()
+            ok = after == "IDLE" and "spa.disconnect" in m.log and "facade.disconnect" in m.log
+            why = f"ends in {after} after {[x for x in m.log if isinstance(x, str)]}"
+        except PyRaise as e:
+            ok, why = False, f"raises {e.what} after {[x for x in m.log if isinstance(x, str)]}"
+        n += 1
+        ctx.ob(rule, f"{fi.qual}::from-{name}::completes", ok,
+               f"{fi.qual} started in state {name} with a spa and a facade present {why}: expected both disconnected and IDLE - a teardown that raises half-way leaves the endpoint open and the connection's tasks running, "
+               f"and every later reset / the context exit fails the same way", fi.loc, sample={"rule": rule, "state": name} if name.startswith("ERROR") else None)
+    ctx.count(f"{rule}:states reset was started in", n)
+    ctx.floor(rule, "states reset was started in", n, 8)
 
 
 def cancellation_passes_through(ctx, repo, rule, cg=None):
